@@ -396,6 +396,8 @@ impl ISocket for ReqSocket {
       Command::Stop => {
         self.ingress_engine.close();
         self.reply_available_notifier.notify_waiters();
+        // a send() waiting for its first peer is released, as in PUSH and DEALER
+        self.load_balancer.deactivate();
       }
       _ => return Ok(false),
     }
